@@ -313,6 +313,26 @@ func fieldIndexByName(t reflect.Type, name string) []int {
 		t = t.Elem()
 	}
 
+	// Go's selector rule: a field of the struct itself shadows fields promoted
+	// from embedded structs, wherever it is declared.
+	for i := range t.NumField() {
+		f := t.Field(i)
+		if !validGoStructName(f.Name) {
+			continue
+		}
+		if a := strings.SplitN(f.Tag.Get("json"), ",", 2); a[0] != "" {
+			if a[0] == "-" {
+				continue
+			}
+			if a[0] == name {
+				return []int{i}
+			}
+		}
+		if f.Name == name {
+			return []int{i}
+		}
+	}
+
 	for i := range t.NumField() {
 		f := t.Field(i)
 
